@@ -100,6 +100,7 @@ func init() {
 			}
 			jobs = append(jobs, Job{Pkg: "root", Func: "VerifC15IP4Header", Args: []int64{0}, Cfg: c, Reach: []string{"done"}})
 			jobs = append(jobs, Job{Pkg: "root", Func: "VerifC15IP4Header", Args: []int64{1}, Cfg: c, Reach: []string{"done"}})
+			jobs = append(jobs, Job{Pkg: "root", Func: "VerifC15IP4Header", Args: []int64{2}, Cfg: c, Reach: []string{"done"}})
 			return jobs
 		},
 		Bounds: func(tier string) map[string]string {
@@ -111,7 +112,7 @@ func init() {
 			return map[string]string{
 				"Checksum == RFC 1071": "every length 0.." + max + " (even and odd), every content: base case + one inductive step per length",
 				"direct equivalence":   "every length 0.." + d + ", every content, against a textbook big-endian reference",
-				"IPv4 header":          "every ttl, protocol, source/destination address, payload length 0..1480 and content; SetPayload and AppendPayload",
+				"IPv4 header":          "every ttl, protocol, source/destination address, payload length 0..1480 and content, every stale value of the checksum field before completion; SetPayload, AppendPayload, and SetPayload on an already completed header",
 			}
 		},
 		Assumptions: []string{
